@@ -276,12 +276,37 @@ BP('C20', 'rf-c20-3', 'rf-c20-3.diff',
 BP('C20', 'rf-c20-4', 'rf-c20-4.diff',
    'independent refactoring: Key registration mechanism in runtime/runner.rs (SignerRunner). `register_signer_to_aggregator`: the inline `match` that reads the operational certificate from the configured path is extracted into a new private inherent method `SignerRunner::read_operational_certificate` (written with let-else); the gua')
 
+BP('C01', 'rf3-c01-1', 'rf3-c01-1.diff',
+   'independent refactoring of code changed by a fix: commit (F12-F16): ConcatenationProof::batch_verify: walk the batch with zipped iterators instead of an index into four parallel slices, and feed BlsSignature::aggregate with the (signatures, verification keys) pair that preliminary_verify already returns instead of discarding it ')
+BP('C01', 'rf3-c01-2', 'rf3-c01-2.diff',
+   'independent refactoring of code changed by a fix: commit (F12-F16): ConcatenationProof::preliminary_verify is split into two private helpers called in the original order: check_lottery_indices (per-signature index bound + lottery check, index uniqueness, count >= k) and check_signers_membership (leaves + Merkle batch path). Insi')
+BP('C01', 'rf3-c01-3', 'rf3-c01-3.diff',
+   'independent refactoring of code changed by a fix: commit (F12-F16): BlsSignature::batch_verify_aggregates: the derivation of the per-member 128-bit scalars and the scaling of each (verification key, signature) pair are extracted into a new private associated function scale_batch_members, written as an iterator chain + unzip that')
+BP('C01', 'rf3-c01-4', 'rf3-c01-4.diff',
+   'independent refactoring of code changed by a fix: commit (F12-F16): BlsSignature::aggregate and BlsSignature::from_bytes clean-up. aggregate: the generation of the random scalars moves to a new private associated function derive_aggregation_scalars (iterator flat_map over 0..sigs.len() instead of a loop pushing into two vectors)')
+BP('C03', 'rf3-c03-1', 'rf3-c03-1.diff',
+   'independent refactoring of code changed by a fix: commit (F12-F16): mithril-client/src/certificate_client/verify.rs: the body of `<MithrilCertificateVerifier as CertificateVerifier>::verify_chain` is split in two. Phase 1 (validate without cache until an epoch boundary is crossed) is extracted into the new private method `verify')
+BP('C03', 'rf3-c03-2', 'rf3-c03-2.diff',
+   'independent refactoring of code changed by a fix: commit (F12-F16): mithril-client/src/certificate_client/verify.rs: `MithrilCertificateVerifier::verify_with_cache_enabled` is flattened. The `if let Some(previous_hash) = fetch_cached_previous_hash(..)? { cache hit } else { cache miss }` becomes a `let Some(cached_previous_hash) ')
+BP('C03', 'rf3-c03-3', 'rf3-c03-3.diff',
+   'independent refactoring of code changed by a fix: commit (F12-F16): mithril-client/src/certificate_client/verify.rs: in `MithrilCertificateVerifier::verify_without_cache` the inline, `#[cfg(feature = "unstable")]`-gated block that records a validated certificate in the verifier cache (`if let Some(cache) = self.verifier_cache.as')
+BP('C03', 'rf3-c03-4', 'rf3-c03-4.diff',
+   'independent refactoring of code changed by a fix: commit (F12-F16): mithril-common/src/messages/certificate.rs: `impl TryFrom<CertificateMessage> for Certificate` (the conversion every certificate served by an aggregator goes through before the client verifier sees it, and which decides genesis vs standard via the emptiness of `')
+BP('C13', 'rf3-c13-1', 'rf3-c13-1.diff',
+   'independent refactoring of code changed by a fix: commit (F12-F16): CardanoTransactionRepository::remove_rolled_back_blocks_transactions_and_block_range_by_slot_number: the `match` on the result of get_closest_block_number_above_slot_number is rewritten as an intermediate variable (`highest_kept_block_number`) + `let Some(block_')
+BP('C13', 'rf3-c13-2', 'rf3-c13-2.diff',
+   'independent refactoring of code changed by a fix: commit (F12-F16): CardanoTransactionRepository: the two consecutive deletions of block range roots and legacy block range roots, duplicated in remove_rolled_back_transactions_and_block_range_by_block_number and in remove_all_blocks_transactions_and_block_ranges, are extracted int')
+BP('C13', 'rf3-c13-3', 'rf3-c13-3.diff',
+   'independent refactoring of code changed by a fix: commit (F12-F16): BlocksTransactionsImporter (blocks_and_transactions_importer.rs): (a) `run`: the up-to-date condition `highest_stored_beacon.as_ref().is_some_and(|f| f.block_number >= up_to_beacon)` becomes a named boolean `is_up_to_date` computed with a `match` and the flipped')
+BP('C13', 'rf3-c13-4', 'rf3-c13-4.diff',
+   'independent refactoring of code changed by a fix: commit (F12-F16): BlockRangeImporter (block_ranges_importer.rs): (a) the duplicated `match store.get_highest_*_block_range().await?.map(..) { None => .., Some(r) if r.is_empty() => return Ok(()), Some(r) => r }` at the top of `run` and `run_legacy` is extracted into a private ass')
+
 
 # ---- the independent refactorings of one property applied TOGETHER (interactions between rewritten helpers)
 def _combos():
     by = {}
     for b in list(BENIGN):
-        if 'patch' in b and b['id'].startswith('rf-'):
+        if 'patch' in b and b['id'].startswith(('rf-', 'rf3-')):
             by.setdefault(b['prop'], []).append(b['patch'])
     for prop, ps in sorted(by.items()):
         if len(ps) >= 2:
